@@ -2308,7 +2308,7 @@ fn run_lookups(case: &StressCase, api: Box<dyn Api>) -> SResult {
             if deficit > (b as i64 - 1) {
                 problem = Some((
                     "estimate_ge_recorded",
-                    &["C15"],
+                    &["C15", "C13"],
                     format!("{} lookups, all batches kept (none dropped), buffer_items {}: the estimates fall short of the recorded lookups by {} in total (at most {} may still sit in the ring), e.g. key {} looked up {} times estimates {}", total, case.cfg.buffer_items, deficit, b - 1, worst.0, worst.1, worst.2),
                 ));
             }
